@@ -543,7 +543,12 @@ func runC16(c *Ctx) {
 	// shared with C14: NearestMatch/MultipleMatch keep no scratch state between calls (R14.5); shared with C15: every
 	// archived text is read completely and paired with its own search set when the corpus is loaded (R15.2, R15.4)
 	checkV1SharedWrites(c, p)
-	borrowRules(c, []string{"R15.2", "R15.4", "R15.8", "R15.9"}, runC15)
+	borrowRules(c, []string{"R15.2", "R15.3", "R15.4", "R15.8", "R15.9"}, runC15)
+	// shared with C13: the classifier keeps its own copy of the normaliser list (R13.8) - the exported Normalizers slice it is
+	// built from can be assigned to afterwards
+	if c.R.Filter == nil {
+		borrowRules(c, []string{"R13.8"}, runC13)
+	}
 	mm := p.Func(core.RootMod, "(*License).MultipleMatch")
 	wct := p.Func(core.RootMod, "(*License).WithinConfidenceThreshold")
 	if !c.R.Anchor(mm != nil, "(*License).MultipleMatch") || !c.R.Anchor(wct != nil, "(*License).WithinConfidenceThreshold") {
